@@ -37,16 +37,28 @@ def gen_scenario(ctx, k):
         b['features'] = f or None
         if not b.get('segments'):
             b['segments'] = [{'id': f'xs{b["id"]}_{i}', 'address': a, 'length': '1cm'} for i, a in enumerate(rng.sample(range(0, 128), rng.randrange(1, 6)))]
+    variant = rng.choice(['plain', 'plain', 'stall', 'stall', 'budget'])
+    if variant == 'stall':
+        for b in cfg['boards']:
+            if rng.random() < 0.6:
+                b['uid'] = bytes([b['uid'][0] | 0x80]) + b['uid'][1:]      # hubs: boards beneath boards, so that stalls can nest
     d = cfggen.write_config(cfg, cfg_dir(f'c19_{k}'))
     nodes = cfggen.assign_tree(rng, cfg, absent_prob=rng.choice([0.0, 0.0, 0.3]), unknown=1)
     m = statemodel.Model(cfg, nodes)
-    variant = rng.choice(['plain', 'plain', 'stall', 'budget'])
     sc = Scn(seed=ctx.seed * 79 + k, watchdog=300000)
     sc.add(*cfggen.bus_lines(cfg, nodes), 'bus brackets 0', 'bus policy 19 never', f'start {d} 0', 'quiesce', 'flush', 'quiesce')
     conn = [b for b in cfg['boards'] if m.connected(b['id'])]
     cases = []
     reused = [0]
     blocked_board = rng.choice(conn) if conn and variant != 'plain' else None
+    if variant == 'stall' and conn:
+        def _below(x):
+            ax = m.addr[x['id']]
+            dx = 0 if ax == (0, 0, 0) else 1 if ax[1] == 0 else 2 if ax[2] == 0 else 3
+            return [y for y in conn if y is not x and 0 < dx < 3 and m.addr[y['id']][:dx] == ax[:dx]]
+        hubs = [x for x in conn if _below(x)]
+        if hubs and rng.random() < 0.7:
+            blocked_board = rng.choice(hubs)
     if blocked_board is not None:
         ad = m.addr[blocked_board['id']]
         if variant == 'stall':
@@ -57,10 +69,23 @@ def gen_scenario(ctx, k):
         if variant == 'budget':
             # two 30-byte requests that are never answered: the second one is held, everything later queues behind it
             sc.add(call('bidib_send_string_get', ad[0], ad[1], ad[2], 0, 0, 0), call('bidib_send_string_get', ad[0], ad[1], ad[2], 0, 1, 0), 'flush', 'quiesce')
+    # nested flow control: a board beneath the stalled one stalls as well (after some of its reports are already held) and the two stalls end
+    # in either order - every owed mirror still goes out exactly once after the last one ended
+    nested = None
+    if blocked_board is not None and variant == 'stall':
+        ba_ = m.addr[blocked_board['id']]
+        dpt_ = 1 if ba_[1] == 0 else 2 if ba_[2] == 0 else 3
+        below = [b for b in conn if b is not blocked_board and dpt_ < 3 and m.addr[b['id']][:dpt_] == ba_[:dpt_]]
+        if below and rng.random() < 0.7:
+            nested = rng.choice([b for b in below if cfggen.secack(b)] or below)
     n = rng.randrange(5, 40)
+    nested_at = rng.randrange(1, n) if nested is not None else -1
     MALFORMED = [bytes([9, 0, 1, 0xA0]), bytes([2, 0, 0]), bytes([200]), bytes([5, 1, 2, 3, 4, 5]), bytes([4, 0, 0, 0xA0]), bytes([0])]
     reuse_at = rng.randrange(1, n) if variant == 'plain' and rng.random() < 0.5 else -1
     for i in range(n):
+        if i == nested_at:
+            na_ = m.addr[nested['id']]
+            sc.add(f'mark cy{i}', up(model.build_msg(na_, 0, C('MSG_STALL'), b'\x01')), 'quiesce')
         if i == reuse_at:
             # a board drops off the bus and ANOTHER configured board logs on at the address that became free: whether reports from that
             # address are mirrored depends on the board that is there NOW
@@ -118,12 +143,16 @@ def gen_scenario(ctx, k):
     if blocked_board is not None:
         ad = m.addr[blocked_board['id']]
         if variant == 'stall':
-            sc.add(up(model.build_msg(ad, 0, C('MSG_STALL'), b'\x00')), 'quiesce')
+            offs = [ad] + ([m.addr[nested['id']]] if nested is not None else [])
+            if rng.random() < 0.5:
+                offs.reverse()
+            for oa in offs:
+                sc.add(up(model.build_msg(oa, 0, C('MSG_STALL'), b'\x00')), 'quiesce')
         else:
             # time passes, then any message from that node lets the library notice the expiry
             sc.add('advance 3', up(model.build_msg(ad, 0, C('MSG_BM_CURRENT'), bytes([250, 0]))), 'quiesce')
     sc.add(f'mark c{n + 1}', 'stop')
-    return sc.text(), cfg, nodes, cases, variant + ('+address-reuse' if reused[0] else ''), blocked_board['id'] if blocked_board else None
+    return sc.text(), cfg, nodes, cases, variant + ('+nested' if nested is not None else '') + ('+address-reuse' if reused[0] else ''), blocked_board['id'] if blocked_board else None
 
 def evaluate(ctx, r, cfg, nodes, cases, variant, blocked, meta):
     if ctx.generic_failures(r, meta):
@@ -200,6 +229,8 @@ def evaluate(ctx, r, cfg, nodes, cases, variant, blocked, meta):
     ctx.count('mirrors_checked', nmir)
     if 'address-reuse' in variant:
         ctx.count('scenarios_with_address_reuse')
+    if '+nested' in variant:
+        ctx.count('scenarios_with_nested_stall')
     if nmir:
         ctx.nontrivial.add(meta['digest'])
 
